@@ -1,4 +1,5 @@
 #![feature(step_trait)]
+#![feature(abi_x86_interrupt)]
 //! xv — conformance harness for rust-osdev/x86_64: drives the real crate and records ndjson
 //! traces that TLC validates against the TLA+ specification in /verif/spec.
 
@@ -77,6 +78,7 @@ fn main() {
             _ => usage(),
         },
         "idt" => idt::run_idt(&mut o, args.seed, args.n),
+        "idt13" => idt::run_idt13(&mut o, args.seed, args.n),
         "gdt" => gdt::run_gdt(&mut o, args.seed, args.n),
         "desc" => gdt::run_desc(&mut o, args.seed, args.n),
         "pte" => pte::run_pte(&mut o, args.seed, args.n),
